@@ -365,7 +365,7 @@ def replay(ov, prop, item, extra, timeout=900, native=True):
     cmd = ["cargo", "kani", "--harness", h, "--exact", "-Z", "concrete-playback", "--concrete-playback=print"] + extra
     try:
         # concrete playback reads the counterexample values from CBMC's trace: this run is not filtered
-        _rc, gen_out = run_group(cmd, ov, dict(ENV, VERIF_CBMC_FILTER=""), timeout)
+        _rc, gen_out = run_group(cmd, ov, dict(ENV, VERIF_CBMC_FILTER=""), timeout if native else min(timeout, 300))
     except subprocess.TimeoutExpired:
         if not native:
             # CBMC-only harness: the verdict is the solver's (the obligation's cover came back SATISFIED in the
